@@ -116,6 +116,24 @@ CHECKS = {
         "trusted: structural judge in mc/checks/c19.py; defaults restricted to valid ones; one recorded design conflict (AllOf annotation vs first-member result) listed in known_findings.json with a two-part predicate",
         "exhaustive enumeration of element placements x accepted values on the real code, structural type-membership oracle",
     ),
+    "C02": (
+        "E1-lattice",
+        "Every document of the family (14 reference shapes x 6 title shapes x payload pairs + described documents) is generated through the real entry point statham.__main__.main from an in-memory loader; the module is compiled and executed in a namespace holding only builtins, its classes must be in bijection with the parsed document's object classes, each generated class must equal its parsed namesake and behave identically on a lifted value alphabet, and the generated root must agree with the reference Draft-6 evaluator on the dereferenced source document.",
+        "trusted: mc/ref/draft6.py, json_ref_dict as dereferencer; recursive documents excluded (C20)",
+        "exhaustive enumeration of a bounded document family through the real generator, exec + differential + reference-model oracle",
+    ),
+    "C09": (
+        "E4-config",
+        "PYTHONHASHSEEDs are searched until all 3! iteration orders of the library's hash-ordered composition-keyword set (and as many permutations of 24 further probe sets as the seed cap allows; coverage reported) are realised; one interpreter process per selected seed generates module text, JSON serialization and class names of every document of the family forward and in reverse; thorough adds every document alone in a fresh process and the real command line; all outputs must be byte-identical.",
+        "trusted: the claim is exhaustive over iteration orders of the probe sets, not over all 2^32 seeds",
+        "exhaustive enumeration of a configuration space (set iteration orders via concrete hash seeds, batch order, process instances), byte-identity oracle",
+    ),
+    "C20": (
+        "E1-lattice",
+        "Every <=1-atom lattice schema x 20 schema positions x 15 (unsupported keyword, value) atoms incl. falsy values through parse_element, parse and the generator must raise the not-implemented error while the schema without the keyword still parses; every digraph on <=3 definitions x 8 root reference sets x reference position kinds, rings of length 1..8 and cross-file rings go through the real generator under a call-event budget: reachable-or-defined cycle => not-implemented error, acyclic => an executable module.",
+        "trusted: cycle oracle in mc/checks/c20.py; keyword names inside literals / as property names are counted only",
+        "exhaustive enumeration of (schema, position, unsupported keyword) and of small reference graphs on the real parser/generator",
+    ),
 }
 
 PENDING_REASON = "check not built yet in this session (planned in DESIGN.md section 4); no claim is made until its machinery exists"
